@@ -583,3 +583,112 @@ def _iter_rows(adapter_shape: str, extra_mod: list) -> Any:
 _IR = _iter_rows("@triples", ["self.adapter._graph_id"])
 _IR.variants = [{"self": OBJ(DECODER + "@triples")}, {"self": OBJ(DECODER + "@quads")}, {"self": OBJ(DECODER + "@graphs")}]
 contract(f"{PD}:Decoder.iter_rows", serves=["C04", "C16", "C07", "C10"])(_IR)
+
+
+# ------------------------------------------------------------------------------------------------- Decoder.__init__
+inline(f"{PD}:Adapter.__init__")
+inline(f"{GP}:GenericStatementSinkAdapter.__init__")
+inline(f"{GP}:GenericQuadsBaseAdapter.__init__")
+inline(f"{GP}:GenericGraphsAdapter.__init__")
+
+
+@contract(f"{PD}:Decoder.__init__", serves=["C04", "C05", "C12", "C17", "C07"])
+class _decoder_init:
+    """a new decoder starts from the empty spec tables of the sizes the stream options declare (capped at 4096 each:
+    nothing is allocated for a larger declared size), remembers no terms, and shares nothing with other decoders"""
+    params = {"self": NEWOBJ(DECODER), "adapter": OBJ(f"{GP}:GenericStatementSinkAdapter")}
+    variants = [{"adapter": OBJ(f"{GP}:GenericTriplesAdapter")}, {"adapter": OBJ(f"{GP}:GenericQuadsAdapter")},
+                {"adapter": OBJ(f"{GP}:GenericGraphsAdapter")}]
+    modifies = ["self"]
+
+    def requires(e):
+        lp = e.adapter.options.items[1]
+        return And(lp.max_names >= 0, lp.max_prefixes >= 0, lp.max_datatypes >= 0)
+
+    def raises(e):
+        lp = e.adapter.options.items[1]
+        return {"JellyAssertionError": Or(lp.max_names > 4096, lp.max_prefixes > 4096, lp.max_datatypes > 4096)}
+
+    def on_raise(e): return {"the-half-built-decoder-is-discarded": True}
+
+    def aliases(e): return {"self.adapter": e.adapter}
+
+    def ensures(e):
+        from .spec_tables import empty_table, table_eq
+        D = e.self
+        lp = e.adapter.options.items[1]
+        rt = D.repeated_terms
+        new = lambda v: v._ref.id not in e._old_heap  # noqa: E731
+        return {"tables-are-the-empty-spec-tables": And(wf_dec(D), table_eq(D.names.T, empty_table(lp.max_names)),
+                                                        table_eq(D.prefixes.T, empty_table(lp.max_prefixes)),
+                                                        table_eq(D.datatypes.T, empty_table(lp.max_datatypes))),
+                "no-remembered-terms": And(*[is_none(getattr(rt, k)) for k in ("subject", "predicate", "object", "graph")]),
+                "state-is-per-decoder": new(D.names) and new(D.prefixes) and new(D.datatypes) and new(rt)}
+
+
+# ---------------------------------------------------------------------------- parse_triples_stream / parse_quads_stream
+from pyvc.contract import ABSITER, NONE  # noqa: E402
+
+
+def _gen_self(y: Any) -> Any:
+    """the receiver a suspended iter_rows generator is bound to"""
+    o = y._obj()
+    return dict(o.get("binds")).get("self") if o.kind == "gen" else None
+
+
+def _parse_stream(fname: str, adapters: dict) -> Any:
+    class C:
+        """C07: one decoder serves all frames (lookup and repeated-term state is carried across frame boundaries and nothing
+        else is), and every frame gives exactly one iterable - the suspended iter_rows of that decoder on that frame;
+        C16/C13: the adapter is the one of the stream's physical type."""
+        params = {"frames": ABSITER(MSG("RdfStreamFrame")), "options": PARSER_OPTIONS, "frame_metadata": NONE}
+        variants = [{"frame_metadata": NONE}, {"frame_metadata": Sort("ctxvar")}]
+        yields = Sort("anyval")
+        modifies = ["frame_metadata"]
+        loops = {0: LoopSpec(invariant=lambda e: {"decoder-not-replaced": True},
+                             after_each=lambda e: _per_frame(e), modifies=["frame_metadata"])}
+
+        def requires(e):
+            lp = e.options.items[1]
+            return And(lp.max_names >= 0, lp.max_prefixes >= 0, lp.max_datatypes >= 0)
+
+        def raises(e):
+            lp = e.options.items[1]
+            return {"JellyAssertionError": Or(lp.max_names > 4096, lp.max_prefixes > 4096, lp.max_datatypes > 4096)}
+
+        def on_raise(e): return {"anything": True}
+        def ensures(e): return {}
+
+    def _per_frame(e):
+        ys = e.iter_yields
+        out = {"one-iterable-per-frame": len(ys) == 1}
+        if len(ys) == 1:
+            y = ys[0]
+            o = y._obj()
+            out["it-is-iter_rows-of-this-frame"] = (o.kind == "gen" and o.get("fi").key == f"{PD}:Decoder.iter_rows"
+                                                    and dict(o.get("binds")).get("frame") == e.frame._ref)
+            out["of-the-one-decoder"] = _gen_self(y) == e.decoder._ref
+            if e.frame_metadata is not None:
+                # C07: while this frame's iterable is being consumed, the context variable holds this frame's metadata
+                # (an empty mapping when the frame carries none)
+                cur = e.frame_metadata._obj().get("current")
+                md = e.frame.metadata
+                nonempty = md._obj().get("nonempty")
+                from pyvc.values import Ref as _Ref
+                is_md = isinstance(cur, _Ref) and cur == md._ref
+                is_empty = isinstance(cur, _Ref) and e.st.obj(cur).kind == "pydict" and e.st.obj(cur).get("keys") == ()
+                out["metadata-of-this-frame-is-current"] = And(Implies(nonempty, is_md), Implies(Not(nonempty), is_empty))
+            phys = e.options.items[0].physical_type
+            acls = e.decoder.adapter.cls.name
+            out["adapter-of-the-physical-type"] = adapters[acls](phys)
+        return out
+    return C
+
+
+contract(f"{GP}:parse_triples_stream", serves=["C07", "C04", "C16", "C11"])(
+    _parse_stream("parse_triples_stream", {"GenericTriplesAdapter": lambda p: True}))
+contract(f"{GP}:parse_quads_stream", serves=["C07", "C04", "C16", "C11"])(
+    _parse_stream("parse_quads_stream", {"GenericQuadsAdapter": lambda p: p == 2, "GenericGraphsAdapter": lambda p: p != 2}))
+
+inline(f"{GP}:GenericTriplesAdapter.__init__")
+inline(f"{GP}:GenericQuadsAdapter.__init__")
